@@ -260,10 +260,19 @@ class Jet:
         cyc = [cs, tm.neg(sn), tm.neg(cs), sn]
         return self.compose([cyc[n % 4] for n in range(self.order + 1)])
 
+    def sinh(self):
+        e = self.exp()
+        return (e - e.reciprocal()) * Fraction(1, 2)
+
+    def cosh(self):
+        e = self.exp()
+        return (e + e.reciprocal()) * Fraction(1, 2)
+
     def __pow__(self, p):
         if isinstance(p, SymReal):
             if p.t.op != 'c':
-                raise TypeError("symbolic exponent")
+                # f ** p = exp(p log f)  (f > 0); tm.exp splits integer combinations of the monomials of p log f0
+                return (self.log() * p).exp()
             p = p.t.val
         p = tm.rationalise(p)
         if p.denominator == 1 and 0 <= p.numerator <= 4:
